@@ -21,8 +21,9 @@ EVIDENCE = dict(
 )
 
 NOTES = """Interpretation choices (soundness first):
-* Characters: a piece's size is counted in Unicode characters of its non-white extent (the code counts bytes, which is never
-  smaller), tokens = characters div (1/TokensPerChar).  The bound is only asserted for units characters/tokens, a hard maximum
+* Characters: a piece's size is the number of Unicode characters of the piece itself without surrounding white space (the
+  code counts bytes, which is never smaller; the extent of the piece in the original text is NOT used, because a chunker may
+  legitimately replace "\n\n" between sentences by one space), tokens = characters div (1/TokensPerChar).  The bound is only asserted for units characters/tokens, a hard maximum
   >= 200 and texts in which every stretch without a 1-byte space/newline is < 50 bytes.
 * White space: anything unicode.IsSpace; no-break and ideographic spaces are white but are not counted as break opportunities.
 * Conservation is checked on bytes of non-white characters, in order; white space may be dropped or replaced.
